@@ -13,6 +13,7 @@ from __future__ import annotations
 import itertools
 import json
 import logging
+import re
 
 from .. import common, genrun, graphgen, shapes
 from ..common import Ctx
@@ -50,8 +51,14 @@ def kind_ok(exp_kind: str, target: str | None, got: str, names: list[str]) -> bo
     return False
 
 
+def norm(s: str) -> str:
+    """Harness-side comparison of a declared schema name with a derived class name: ASCII letters and digits, case-folded."""
+    return re.sub(r"[^a-z0-9]", "", (s or "").lower())
+
+
 def check_ir(ctx: Ctx, ldr, desc, doc, expect, resolved, on_cycle_names, feats_base) -> None:
     rec = ctx.rec
+    rewritten = desc.get("scheme") == "rewritten"
     rec.count("ir_graphs")
     try:
         ir = ldr.load_ir_from_spec(doc)
@@ -63,8 +70,11 @@ def check_ir(ctx: Ctx, ldr, desc, doc, expect, resolved, on_cycle_names, feats_b
             continue
         feats = feats_base + (["schema_on_ref_cycle"] if name in on_cycle_names else []) + (
             ["refers_to_schema_on_cycle"] if name in desc.get("_refers_cyclic", []) else [])
+        if rewritten and name in on_cycle_names:
+            feats = feats + ["rewritten_name_on_ref_cycle"]
         rec.count("ir_schemas_checked")
-        cands = [s for k, s in ir.schemas.items() if k == name or s.name == name]
+        cands = [s for k, s in ir.schemas.items() if k == name or s.name == name or (rewritten and norm(name) in (norm(k), norm(s.name)))]
+        cands = list({id(c): c for c in cands}.values())
         real = [s for s in cands if not (s._is_circular_ref or s._max_depth_exceeded_marker or s._from_unresolved_ref)]
         case = {"desc": desc, "doc": doc, "schema": name}
         if not cands:
@@ -115,11 +125,30 @@ def check_pkg(ctx: Ctx, items: list[dict]) -> None:
             rec.count("pkg_not_importable_diagnostic")   # C01 decides these
             continue
         names = list(it["resolved"])
+        if it["desc"].get("scheme") == "rewritten":
+            # class names are derived (HTTPAlpha -> HttpAlpha): translate them back to the declared names by an
+            # alphanumeric, case-folded comparison; a class named <derived name><digits> is a de-collided duplicate
+            back = {norm(n): n for n in names}
+
+            def declared(cname: str) -> str | None:
+                k = norm(cname)
+                return back.get(k) or back.get(k.rstrip("0123456789"))
+
+            tr: dict = {}
+            for cname, entries in mm["models"].items():
+                tr.setdefault(declared(cname) or cname, []).extend(entries)
+            for entries in tr.values():
+                for e in entries:
+                    for f in e.get("fields", []):
+                        f["kind"] = re.sub(r"(ref|fwd|enum):(\w+)", lambda m: f"{m.group(1)}:{declared(m.group(2)) or m.group(2)}", f["kind"])
+            mm = dict(mm, models=tr)
         for name, exp in it["resolved"].items():
             if exp is None:
                 continue
             feats = it["feats"] + (["schema_on_ref_cycle"] if name in it["on_cycle"] else []) + (
                 ["refers_to_schema_on_cycle"] if name in it["desc"].get("_refers_cyclic", []) else [])
+            if it["desc"].get("scheme") == "rewritten" and name in it["on_cycle"]:
+                feats = feats + ["rewritten_name_on_ref_cycle"]
             case = {"desc": it["desc"], "doc": it["doc"], "schema": name}
             entries = [e for e in mm["models"].get(name, []) if e["kind"] == "dataclass"]
             rec.count("pkg_models_checked")
@@ -155,7 +184,7 @@ def graphs(ctx: Ctx):
     i = 0
     for edges in graphgen.all_graphs(2):
         for order in itertools.permutations(range(2)):
-            for scheme in ("plain", "prefix", "propcase", "itemish"):
+            for scheme in ("plain", "prefix", "propcase", "itemish", "rewritten"):
                 i += 1
                 if ctx.mine(i):
                     yield 2, edges, order, scheme
@@ -165,7 +194,7 @@ def graphs(ctx: Ctx):
         for extra in ({}, {(0, 2): "ref"}, {(0, 2): "all_of"}, {(2, 1): "all_of"}):
             edges = {(0, 1): "all_of", (1, 2): k1, **extra}
             for order in itertools.permutations(range(3)):
-                for scheme in ("plain", "prefix", "propcase"):
+                for scheme in ("plain", "prefix", "propcase", "rewritten"):
                     i += 1
                     if ctx.mine(i):
                         yield 3, edges, order, scheme
